@@ -56,6 +56,7 @@ type BatchSc struct {
 	Mode     int          `json:"mode"` // 0 unset (default), 1 continue, 2 stop
 	Budget   int          `json:"budget"`
 	WaitMs   int          `json:"wait_ms,omitempty"`
+	WaitUs   int          `json:"wait_us,omitempty"` // > 0: sub-millisecond wait, overrides WaitMs
 	HasFb    bool         `json:"has_fb,omitempty"`
 	ExecAny  bool         `json:"exec_any,omitempty"`
 	ErrBoth  bool         `json:"err_both,omitempty"` // Result-style exec reports failures as (NewErrorResult(err), err)
@@ -98,6 +99,13 @@ func (b *BatchSc) budget() int {
 }
 
 func (b *BatchSc) stop() bool { return b.Mode == 2 }
+
+func (b *BatchSc) wait() time.Duration {
+	if b.WaitUs > 0 {
+		return time.Duration(b.WaitUs) * time.Microsecond
+	}
+	return time.Duration(b.WaitMs) * time.Millisecond
+}
 
 func (b *BatchSc) item(i int) *ItemScript {
 	if len(b.Items) == 0 {
@@ -396,6 +404,17 @@ func (x *batchExec) execCb(ctx context.Context, r flyt.Result) (any, error, erro
 			time.Sleep(time.Duration(d) * time.Millisecond)
 		}
 	}
+	if cp := x.sc.Cancel; cp != nil && !cp.Before && cp.Flavor == "deadline" && cp.Item == idx && cp.Attempt == a {
+		// the context ends by its deadline while this attempt is in progress
+		if dl, has := ctx.Deadline(); has {
+			time.Sleep(time.Until(dl) + time.Millisecond)
+		}
+		x.mu.Lock()
+		x.cancelled = true
+		x.cancelEpoch = x.epoch
+		x.cancelAt = x.now()
+		x.mu.Unlock()
+	}
 	if cp := x.sc.Cancel; cp != nil && !cp.Before && cp.Flavor != "deadline" && cp.Item == idx && cp.Attempt == a {
 		x.mu.Lock()
 		x.cancelled = true
@@ -480,7 +499,7 @@ func (x *batchExec) build() flyt.Node {
 		opts = append(opts, flyt.WithMaxRetries(sc.budget()))
 	}
 	if bit(1) {
-		opts = append(opts, flyt.WithWait(time.Duration(sc.WaitMs)*time.Millisecond))
+		opts = append(opts, flyt.WithWait(sc.wait()))
 	}
 	if bit(2) {
 		opts = append(opts, flyt.WithBatchConcurrency(sc.C))
@@ -515,7 +534,7 @@ func (x *batchExec) build() flyt.Node {
 		b.WithMaxRetries(sc.budget())
 	}
 	if !bit(1) {
-		b.WithWait(time.Duration(sc.WaitMs) * time.Millisecond)
+		b.WithWait(sc.wait())
 	}
 	if !bit(2) {
 		b.WithBatchConcurrency(sc.C)
@@ -573,7 +592,7 @@ func (x *batchExec) reconfigure(next *BatchSc) {
 	} else {
 		b.WithMaxRetries(next.budget())
 	}
-	b.WithWait(time.Duration(next.WaitMs) * time.Millisecond)
+	b.WithWait(next.wait())
 	if next.CfgBits&2 != 0 {
 		flyt.WithBatchConcurrency(next.C)(b.BaseNode)
 	} else {
@@ -608,8 +627,19 @@ func (x *batchExec) run() batchRun {
 	var cancel context.CancelFunc
 	cp := x.sc.Cancel
 	ctx, cancel = context.WithCancel(context.Background())
+	if cp != nil && cp.Flavor == "cause" {
+		// cancelled with a custom cause: ctx.Err() is still context.Canceled and that is what the
+		// run's error has to match
+		c2, cancelCause := context.WithCancelCause(context.Background())
+		ctx, cancel = c2, func() { cancelCause(fmt.Errorf("custom cancellation cause")) }
+	}
 	x.cancel = cancel
 	defer cancel()
+	if cp != nil && !cp.Before && cp.Flavor == "deadline" {
+		c2, cancel2 := context.WithDeadline(ctx, x.t0.Add(10*time.Minute))
+		defer cancel2()
+		ctx = c2
+	}
 	if cp != nil && cp.Before {
 		if cp.Flavor == "deadline" {
 			c2, cancel2 := context.WithDeadline(ctx, time.Now())
